@@ -22,7 +22,7 @@ ASSUMPTIONS = [
     'degenerate case compared with rtol 1e-9, plus the licensed e^-10 relative slack for emission (the cross-section path clamps saturated transmittances, the k path does not)',
     'general case: Jensen bound judged on transmission models; the cross-section run uses the weight-averaged coefficient table (interpolation is linear in the coefficients in linear mode)',
 ]
-REQUIRED = {'family:transmission': 0.2, 'family:emission': 0.2, 'degenerate': 0.3, 'general': 0.2, 'profile:noniso': 0.3}
+REQUIRED = {'requadrature': 0.08, 'grids:same-ends-other-spacing': 0.15, 'family:transmission': 0.2, 'family:emission': 0.2, 'degenerate': 0.3, 'general': 0.2, 'profile:noniso': 0.3}
 
 
 @st.composite
@@ -33,20 +33,43 @@ def _case(draw):
     wts = draw(st.lists(st.floats(0.01, 1.0), min_size=ng, max_size=ng))
     fac = [1.0] * ng if degenerate else draw(st.lists(st.floats(-2.0, 2.0), min_size=ng, max_size=ng))
     ngauss = draw(st.integers(1, 6))
-    w = draw(S.world(layers=(2, 30), nwn=(1, 8), max_active=2, extras=('CIA', 'Rayleigh'),
-                     mags=['mixed', 'mixed', 'saturated', 'transparent']))
+    warp = draw(st.sampled_from([False, True, False]))
+    if warp:
+        # two molecules are needed, on grids of at least five points
+        w = draw(S.world(layers=(2, 30), nwn=(5, 9), max_active=2, min_active=2, extras=('CIA', 'Rayleigh'), mags=['mixed']))
+    else:
+        w = draw(S.world(layers=(2, 30), nwn=(1, 8), max_active=2, extras=('CIA', 'Rayleigh'),
+                         mags=['mixed', 'mixed', 'saturated', 'transparent']))
     return {'world': w, 'family': family, 'degenerate': degenerate, 'weights': wts, 'logfac': fac,
-            'ngauss': ngauss, 'new_path': draw(st.booleans())}
+            'ngauss': ngauss, 'new_path': draw(st.booleans()),
+            # second molecule tabulated on a grid with the same end points and number of points but other interior spacing
+            'warp': warp,
+            # history: the k-tables are re-loaded with another number of quadrature points under the live model
+            'requad': draw(st.sampled_from([True, False, False]))}
 
 
 def strategy(tier):
     return _case()
 
 
-def build_k(w, weights, factors):
+def warped_grids(w, warp):
+    """per-molecule wavenumber grids: with `warp`, every tabulated molecule after the first sits on a grid with the
+    same first / last point and the same number of points as the model grid but quadratic interior spacing"""
+    n0 = w['nwn']
+    base = w['wn0'] + w['dwn'] * np.arange(n0)
+    tabbed = [g for g in w['gases'] if g['table'] is not None]
+    if not warp or n0 < 4 or len(tabbed) < 2:
+        return None
+    t_ = (base - base[0]) / (base[-1] - base[0])
+    other = base[0] + (base[-1] - base[0]) * (0.45 * t_ + 0.55 * t_ ** 2)
+    other[0], other[-1] = base[0], base[-1]
+    return {g['mol']: (base if i == 0 else other) for i, g in enumerate(tabbed)}
+
+
+def build_k(w, weights, factors, grids=None):
     """world in k-table mode; kcoeff[..., g] = table * factors[g]"""
     from taurex.cache.ktablecache import KTableCache
-    W = synth.build_world(w, ktables=True, kweights=weights)
+    W = synth.build_world(w, ktables=True, kweights=weights, wn_per_mol=grids)
     if any(f != 1.0 for f in factors):
         kc = KTableCache()
         for mol, (Tg, Pg, tab, wn) in W.tables.items():
@@ -78,7 +101,10 @@ def check(case):
     out.cls('degenerate' if case['degenerate'] else 'general')
     out.cls('ng:%s' % ('1' if len(wts) == 1 else ('2-5' if len(wts) <= 5 else '6-20')))
     try:
-        Wk = cut(out, 'build-world@k', build_k, w, wts, fac)
+        grids = warped_grids(w, case.get('warp'))
+        if grids:
+            out.cls('grids:same-ends-other-spacing')
+        Wk = cut(out, 'build-world@k', build_k, w, wts, fac, grids)
         mk, rk = run(out, Wk, family, case, 'k')
         spec_k = np.array(rk[1], dtype=float, copy=True)
         tau_k = np.array(rk[2], dtype=float, copy=True)
@@ -95,7 +121,23 @@ def check(case):
         for g in wx['gases']:
             if g['table'] is not None and g['table']['mag'] != 'zero':
                 g['table']['base'] += math.log10(avg)
-        Wx = cut(out, 'build-world@xsec', synth.build_world, wx)
+        # ---- history: other quadrature under the live model (degenerate tables: any weights give the same result)
+        if case.get('requad') and case['degenerate']:
+            from taurex.cache.ktablecache import KTableCache
+            out.cls('requadrature')
+            out.applies('requadrature')
+            extra = np.array([0.11, 0.23, 0.07])
+            w2 = np.concatenate([wts * (1.0 - extra.sum()), extra])
+            kc = KTableCache()
+            kc.clear_cache()
+            for mol, (Tg_, Pg_, tab_, wn_) in Wk.tables.items():
+                kc.add_opacity(synth.SynthKTable(mol, wn_, Tg_, Pg_, np.repeat(tab_[..., None], len(w2), axis=-1), w2))
+            with np.errstate(all='ignore'):
+                rk3 = cut(out, 'k-model@requadrature', mk.model)
+            if not close(np.asarray(rk3[1], dtype=float), spec_k, rtol=1e-9, atol=1e-300):
+                out.fail('requadrature@' + family, 'degenerate tables re-loaded with %d instead of %d points: spectrum changed (max rel %.2e)'
+                         % (len(w2), len(wts), maxrel(rk3[1], spec_k)))
+        Wx = cut(out, 'build-world@xsec', synth.build_world, wx, wn_per_mol=grids)
         mx, rx = run(out, Wx, family, case, 'xsec')
     except CutError:
         return out
@@ -134,7 +176,7 @@ def check(case):
             out.applies('degenerate-transmittance')
             if not close(tau_k, tau_x, rtol=1e-9, atol=1e-12):
                 out.fail('degenerate-transmittance', 'layer transmittances differ (max abs %.2e)' % float(np.max(np.abs(tau_k - tau_x))))
-    if family != 'transmission':
+    if family != 'transmission' and not grids:
         # reference integral generalised to a k-distribution: the transmittance of the column above
         # a level is  e^{-tau_other/mu} * sum_g w_g e^{-tau_g/mu}
         from vlib.props.c01 import absorption_sigma_ref, RSUN
